@@ -550,7 +550,11 @@ func c12Observe(e *c12Env, op c12Op, region int, checkMPD bool) *c12Obs {
 	if sin.SampleType != op.Fmt {
 		res.Violate("C12.segment-served", merge(fs, core.Sig("kind", "init-sample-entry")), "%s init has sample entry %q", repID, sin.SampleType)
 	}
-	if uint64(sin.Timescale) != sAS.Timescale {
+	if uint64(sin.Timescale) != sAS.Timescale && !sAS.Timeline {
+		// $Number$ template: @timescale only scales @duration (ISO/IEC 23009-1 5.3.9.2: "may be any frequency");
+		// the server uses the video timescale when the segment duration is not a whole number of milliseconds
+		res.Count("probe.number-template-in-video-timescale")
+	} else if uint64(sin.Timescale) != sAS.Timescale {
 		res.Violate("C12.mpd-mirrors-video", merge(f, core.Sig("kind", "timescale-differs-from-init")),
 			"%s: MPD timescale %d, init timescale %d", repID, sAS.Timescale, sin.Timescale)
 		return nil
@@ -834,7 +838,8 @@ func c12CheckMPD(e *c12Env, cm *ClientMPD, vAS *ClientAS, prefix string, now int
 		if !sa.Timeline {
 			d, whole := c12ToMS(sa.Duration, sa.Timescale)
 			lo, hi := c12MsFloorCeil(vAS.Duration, vAS.Timescale)
-			if !whole || !c12InMS(d, lo, hi) {
+			exact := sa.Duration*vAS.Timescale == vAS.Duration*sa.Timescale // e.g. the video's own duration and timescale
+			if !exact && (!whole || !c12InMS(d, lo, hi)) {
 				res.Violate("C12.mpd-mirrors-video", merge(f, core.Sig("kind", "template-duration-differs")),
 					"%s: %s duration %d/%d, video %d/%d", prefix, id, sa.Duration, sa.Timescale, vAS.Duration, vAS.Timescale)
 			}
